@@ -36,6 +36,9 @@ DESIGNED_NOT_REGISTERED = [
     ('O5 monolithic rate bounds 3 dt (E - W_eq) <= G tau 3|dev Ee|^2 and its dt/tau twin; multi-branch monolithic upper bound',
      'unknown @60 s; registered per branch on the code\'s own branch terms via the cut chain, plus the exact identity '
      'E = W_eq + sum_n (W_neq_n(relaxed) + dissipation_n) on the real energy function'),
+    ('O5 three-branch monolithic lower bound / strict lower bound (no cut chain)',
+     '23 s on an idle machine but unknown @150 s under load (load average 32 on 16 cores): too fragile for a registered query; the '
+     'same goals are proved by the cut chain in the quick tier'),
     ('O5 total (all-branch) rate with the product of relaxation times', 'needs products of a variable with a proved linear '
      'identity (not attempted); the per-branch rates and the exact sum identity carry the two limits'),
 ]
@@ -200,6 +203,13 @@ def det33(A):
 
 def matmul33(A, B):
     return [[v_sum([v_mul(A[i][k], B[k][j]) for k in range(3)]) for j in range(3)] for i in range(3)]
+
+
+def approx_eq(a, b):
+    """exact equality for the solver; relative 1e-9 when replayed on floats (axioms on stub values)"""
+    if isinstance(a, (int, float, onp.floating)) and isinstance(b, (int, float, onp.floating)):
+        return abs(a - b) <= 1e-9 * (1.0 + abs(a) + abs(b))
+    return toz(a) == toz(b)
 
 
 def positive(i, nb):
@@ -393,6 +403,28 @@ def prove_pinned(c, name, spec, extra_assumes=(), cap=60, order=('core', 'nlsat'
     return recs
 
 
+def prove_or_search(c, name, spec, pins, **kw):
+    """c.prove; if a goal comes back inconclusive (only seen on altered code, where the hypotheses of the cut chain are not
+    available), look for a counterexample of the SAME goal with some inputs pinned: a model of the restricted query is a
+    genuine counterexample of the general one (replayed on the real code as usual); an unsat answer there proves nothing
+    about the general goal, which stays inconclusive."""
+    recs = c.prove(name, spec, **kw)
+    if c.h.replay is not None or any(r is not None and r.get('status') == 'inconclusive' for r in recs):
+        def spec_g(i, o):
+            asm, ats = spec(i, o)
+            ats = [ats] if not isinstance(ats, list) else ats
+            for a in ats:
+                a.name += '.guided_search'
+            return list(asm) + pins(i), ats
+        kw = dict(kw, extra_assumes=(), cap=30, order=('nlsat', 'core'))
+        recs += c.prove(name, spec_g, **kw)
+    return recs
+
+
+def unit_moduli(i):
+    return [v_eq(s0(i['dt']), 1.0)] + [v_eq(x, 1.0) for x in flat(i['G'])] + [v_eq(x, 1.0) for x in flat(i['tau'])]
+
+
 # ------------------------------------------------------------------------------------------ shared cases
 def branch_case(h, M, n, label, validate=2):
     """per branch n: the real increment, dissipated energy of the increment, stored energy before/after"""
@@ -514,39 +546,73 @@ def o2(h):
             c.prove('branch%d[%s]' % (n, M.kind), spec, denoms=False)
 
         nb = M.nb
+        calls = []
 
-        def f(state, X, dt, K, Ge, G, tau, M=M, nb=nb):
+        def f(state, X, dt, K, Ge, G, tau, M=M, nb=nb, calls=calls):
             p = M.props(K, Ge, G, tau)
             seen = []
 
             def expm_stub(A):
                 seen.append(A)
-                return X[len(seen) - 1]
+                return X[(len(seen) - 1) % nb]
             with patched(M.mod, _compute_elastic_logarithmic_strain=log_stub_from_state, linalg=types.SimpleNamespace(expm=expm_stub)):
                 new = M.mod._compute_state_new(jnp.zeros((3, 3)), state, dt, p)
-            assert len(seen) == nb
+            calls.append(len(seen))
             incs = jnp.stack([M.inc(sym33(state[9 * n:9 * n + 6]), dt, p, n) for n in range(nb)])
-            return dict(new=new, arg=jnp.stack(seen), inc=incs)
+            return dict(new=new, arg=jnp.stack(seen) if len(seen) == nb else jnp.zeros((nb, 3, 3)), inc=incs)
         ex = dict(state=onp.linspace(-.2, .3, 9 * nb) + onp.tile(onp.eye(3).ravel(), nb),
                   X=onp.tile(onp.eye(3), (nb, 1, 1)) + 0.01 * onp.arange(9 * nb).reshape(nb, 3, 3), dt=0.1, **M.ex_moduli())
         smp = lambda rng, M=M: [rng.normal(size=9 * M.nb), rng.normal(size=(M.nb, 3, 3)), 10.0 ** rng.uniform(-2, 2)] + M.smp_moduli(rng)
         c = Case(h, f, ex, sampler=smp, label='state_new[%s]' % M.kind)
+        via_expm = calls[0] == nb
+        h.fact('state_new[%s].expm_called_once_per_branch' % M.kind, via_expm,
+               'jax.scipy.linalg.expm was called %d times by _compute_state_new (expected %d): %s' % (calls[0], nb,
+               'stub contract applies' if via_expm else 'the update does not go through expm; the stub contract does not apply and '
+               'det preservation is decided on the explicit formula of the code'))
+
+        def blocks(i, o, n):
+            Fo = [[i['state'][9 * n + 3 * a + b] for b in range(3)] for a in range(3)]
+            Fn = [[o['new'][9 * n + 3 * a + b] for b in range(3)] for a in range(3)]
+            Xn = [[i['X'][n][a][b] for b in range(3)] for a in range(3)]
+            return Fo, Fn, Xn
 
         def spec2(i, o, nb=nb):
             ats = [Eq(o['arg'], o['inc'], name='expm_argument_is_branch_increment'),
                    Eq([v_sum([o['arg'][n][k][k] for k in range(3)]) for n in range(nb)], [0.0] * nb, name='expm_argument_traceless')]
             prod, dets_new, dets_old = [], [], []
             for n in range(nb):
-                Fo = [[i['state'][9 * n + 3 * a + b] for b in range(3)] for a in range(3)]
-                Fn = [[o['new'][9 * n + 3 * a + b] for b in range(3)] for a in range(3)]
-                Xn = [[i['X'][n][a][b] for b in range(3)] for a in range(3)]
+                Fo, Fn, Xn = blocks(i, o, n)
                 prod.append(matmul33(Xn, Fo))
                 dets_new.append(det33(Fn))
                 dets_old.append(v_mul(det33(Xn), det33(Fo)))
             ats.append(Eq(list(o['new']), flat(prod), name='Fv_new_is_expm_times_Fv_old'))
             ats.append(Eq(dets_new, dets_old, name='det_Fv_new_is_det_expm_det_Fv_old'))
             return positive(i, nb), ats
-        c.prove('state_new[%s]' % M.kind, spec2, denoms=False)
+        cut_ok = False
+        if via_expm:
+            recs = c.prove('state_new[%s]' % M.kind, spec2, denoms=False)
+            cut_ok = all(r is not None and r.get('status') == 'discharged' for r in recs)
+        # isochoric viscous flow: det Fv_new = det Fv_old for every branch, with the axiom det X_n = 1 on the stub's value
+        h.assume_note('axiom on the expm stub: det X_n = 1 (det expm(A) = exp(tr A) = 1 for a traceless argument; that the argument '
+                      'is the traceless branch increment is proved in the same obligation). In replays on floats the axiom is '
+                      'evaluated with relative tolerance 1e-9')
+
+        def spec_det(i, o, nb=nb):
+            asm, ats = positive(i, nb), []
+            for n in range(nb):
+                Fo, Fn, Xn = blocks(i, o, n)
+                asm.append(approx_eq(det33(Xn), 1.0))
+                ats.append(Eq(det33(Fn), det33(Fo), name='branch%d_det_Fv_preserved' % n))
+            return asm, ats
+        cuts = []
+        if cut_ok:  # proved just above on the same terms: det Fv_new = det X det Fv_old; then a = b c, b = 1 |- a = c (instantiated)
+            for n in range(nb):
+                Fo, Fn, Xn = blocks(c.inp, c.out, n)
+                a_, b_, c_ = toz(det33(Fn)), toz(det33(Xn)), toz(det33(Fo))
+                cuts += [a_ == toz(v_mul(det33(Xn), det33(Fo))), z3.Implies(z3.And(a_ == toz(v_mul(det33(Xn), det33(Fo))), b_ == toz(1.0)), z3.Not(Eq(det33(Fn), det33(Fo)).neg(0)))]
+            prove_lemma(h, 'det_product_with_unit_factor[%s]' % M.kind, lambda t: [v_eq(t['a'], v_mul(t['b'], t['c'])), v_eq(t['b'], 1.0)],
+                        lambda t: Eq(t['a'], t['c']), {'a': 'R', 'b': 'R', 'c': 'R'})
+        prove_or_search(c, 'state_new[%s]' % M.kind, spec_det, unit_moduli, denoms=False, extra_assumes=cuts, cap=60 if cut_ok else 20)
 
 
 # ------------------------------------------------------------------------------------------ O3
@@ -589,7 +655,7 @@ def o3(h):
             c.prove('branch%d[%s]' % (n, M.kind), _spec_relax_direct(n), denoms=False, extra_assumes=cuts + inst)
 
 
-@obligation(P, 'O3.relaxation_at_fixed_strain_monolithic', tiers=('thorough',), cap=400)
+@obligation(P, 'O3.relaxation_at_fixed_strain_monolithic', tiers=('thorough',), cap=800)
 def o3m(h):
     """strict decrease and drop >= dissipation in one query each (no cut chain)"""
     Ms = models()
@@ -599,7 +665,7 @@ def o3m(h):
     for M in Ms:
         for n in range(M.nb):
             c = branch_case(h, M, n, 'relaxation', validate=1)
-            c.prove('branch%d[%s].monolithic' % (n, M.kind), _spec_relax_direct(n), denoms=False, cap=150, order=('core',))
+            c.prove('branch%d[%s].monolithic' % (n, M.kind), _spec_relax_direct(n), denoms=False, cap=300, order=('core',))
 
 
 # ------------------------------------------------------------------------------------------ O4
@@ -740,19 +806,13 @@ def o5(h):
 @obligation(P, 'O5.virgin_energy_monolithic', tiers=('thorough',), cap=600)
 def o5m(h):
     """the bounds that z3 finishes in one query each on the real energy function (no cut chain)"""
-    Ms = models()
+    Ms = models()[:1]
     _enc(h, *Ms)
     h.bounds(BOUNDS, 'dispGrad: every real 3x3 matrix with det(I + dispGrad) > 0')
     h.assume_note('log(J) and J**(-2/3) in _eq_strain_energy are uninterpreted (they cancel: only congruence is used)')
-    for M in Ms:
+    for M in Ms:  # three-branch monolithic forms: see DESIGNED_NOT_REGISTERED
         c = _virgin_case(h, M)
-        full = _spec_virgin_bounds(c, M.nb, '.monolithic')
-        want = (0, 1, 2, 3) if M.nb == 1 else (0, 2)
-
-        def spec(i, o, full=full, want=want):
-            a, ats = full(i, o)
-            return a, [ats[k] for k in want]
-        c.prove('virgin[%s]' % M.kind, spec, denoms=False, cap=150, order=('core',))
+        c.prove('virgin[%s]' % M.kind, _spec_virgin_bounds(c, M.nb, '.monolithic'), denoms=False, cap=300, order=('core',))
 
 
 # ------------------------------------------------------------------------------------------ O6
@@ -766,20 +826,24 @@ def o6(h):
     h.bounds(BOUNDS, 'dispGrad: every real 3x3 matrix with det(I + dispGrad) > 0; state: every real 27-vector (Ee_n read from block n); expm values X_n: every real 3x3')
     h.assume_note(STUB_EXPM, 'log(J) and J**(-2/3) in _eq_strain_energy are uninterpreted (congruence only)')
 
+    calls = []
+
     def f(H, state, X, dt, K, Ge, G, tau):
         def run(Mo, st, Gs, taus, Xs):
             seen = []
 
             def expm_stub(A):
                 seen.append(A)
-                return Xs[len(seen) - 1]
+                return Xs[(len(seen) - 1) % Mo.nb]
             with patched(Mo.mod, _compute_elastic_logarithmic_strain=log_stub_from_state, linalg=types.SimpleNamespace(expm=expm_stub)):
                 mat = Mo.material(K, Ge, Gs, taus)
                 en = mat.compute_energy_density(H, st, dt)
                 D = mat.compute_material_qoi(H, st, dt)
                 new = mat.compute_state_new(H, st, dt)
                 init = mat.compute_initial_state()
-            return en, D, new, jnp.stack(seen), init
+            calls.append((Mo.kind, len(seen)))
+            return en, D, new, (jnp.stack(seen) if len(seen) == Mo.nb else jnp.zeros((Mo.nb, 3, 3))), init
+        del calls[:]
         en_m, D_m, new_m, arg_m, init_m = run(M, state, G, tau, X)
         singles = [run(S, state[9 * n:9 * n + 9], G[n:n + 1], tau[n:n + 1], X[n:n + 1]) for n in range(3)]
         weq = S.mod._eq_strain_energy(H, S.props(K, Ge, G[:1], tau[:1]))
@@ -792,15 +856,21 @@ def o6(h):
     smp = lambda rng: [rng.normal(size=(3, 3)) * 0.1, rng.normal(size=27), rng.normal(size=(3, 3, 3)), 10.0 ** rng.uniform(-2, 2)] + M.smp_moduli(rng)
     c = Case(h, f, ex, sampler=smp, label='multi_vs_single')
 
+    via_expm = calls == [('multi', 3), ('single', 1), ('single', 1), ('single', 1)]
+    h.fact('multi_vs_single.expm_called_once_per_branch', via_expm, 'calls of jax.scipy.linalg.expm by compute_state_new: %s (expected 3 / 1 / 1 / 1); '
+           'if not, the arguments of expm cannot be compared and the state update is compared as explicit formulas' % (calls,))
+
     def spec(i, o):
         weq = s0(o['weq'])
-        return _virgin_assumes(i, 3), [
+        ats = [
             Eq(v_sub(s0(o['en_m']), weq), v_sum([v_sub(o['en_s'][n], weq) for n in range(3)]), name='energy'),
             Eq(s0(o['D_m']), v_sum([o['D_s'][n] for n in range(3)]), name='dissipated_energy'),
             Eq(o['new_m'], o['new_s'], name='state_new'),
-            Eq(o['arg_m'], o['arg_s'], name='expm_arguments'),
             Eq(o['init_m'], o['init_s'], name='initial_state'),
         ]
+        if via_expm:
+            ats.append(Eq(o['arg_m'], o['arg_s'], name='expm_arguments'))
+        return _virgin_assumes(i, 3), ats
     c.prove('multi_vs_single', spec, denoms=False, cap=60)
 
 
@@ -825,3 +895,98 @@ def o7(h):
             smp = lambda rng, M=M: [rng.normal(size=6) * 0.3, 10.0 ** rng.uniform(-2, 2)] + M.smp_moduli(rng)
             c = Case(h, f, ex, sampler=smp, label='stationarity[%s,branch%d]' % (M.kind, n), validate=2)
             c.prove('branch%d[%s]' % (n, M.kind), lambda i, o, M=M: (positive(i, M.nb), Eq(o, 0.0, name='gradient_vanishes_at_increment')), denoms=False)
+
+
+# ------------------------------------------------------------------------------------------ O8
+KIN_NOTE = ('kinematic fact the assumed coaxial identity Ee_next = Ee - delta_Ev rests on (proved here, on the real '
+            '_compute_elastic_logarithmic_strain): the tensor handed to the matrix logarithm is the RIGHT elastic Cauchy-Green '
+            'tensor Ce = Fe^T Fe with Fe = (dispGrad + I) inv(Fv_n), Fv_n the n-th block of the state; with Fv_new = expm(dEv) Fv_old '
+            '(O2) one gets Ce_new = expm(-dEv) Ce expm(-dEv), and for dEv coaxial with Ce this is log-additive. With the left '
+            'tensor Fe Fe^T the increment would live in the wrong frame')
+STUB_LOGM = ('TensorMath.log_sqrt_symm / log_symm are replaced by an arbitrary 3x3 tensor per call (uninterpreted; the argument '
+             'passed by the real code is captured); jnp.linalg.inv is the real one (JX: relational, fresh Y with Fv Y = I), wrapped '
+             'only to expose its argument and result')
+
+
+@obligation(P, 'O8.log_strain_argument_is_right_elastic_cauchy_green', cap=300)
+def o8(h):
+    """real _compute_elastic_logarithmic_strain, as called by _energy_density / _compute_dissipated_energy / _compute_state_new
+    of both modules: per branch the matrix inverted is that branch's Fv block and the log argument is (F Y)^T (F Y), Fv Y = I"""
+    Ms = models()
+    _, _, TM = _mods()
+    _enc(h, *Ms)
+    for M in Ms:
+        h.encoded(M.mod._compute_elastic_logarithmic_strain, M.mod._compute_state_new)
+    h.bounds('dispGrad: every real 3x3 matrix; Fv_n: every real 3x3 matrix with det != 0 per branch; moduli, tau, dt > 0; '
+             'value of the matrix logarithm and of expm: arbitrary 3x3 tensors per call')
+    h.assume_note(STUB_LOGM, STUB_EXPM, KIN_NOTE, 'linear system solved by jnp.linalg.inv is non-singular (det Fv_n != 0 is a hypothesis)')
+    h.outside('that Fv Y = I makes Y the two-sided inverse (linear algebra)', 'the coaxial/log-additivity step itself (assumed, see O3)')
+    for M in Ms:
+        nb = M.nb
+        for fname in ('_energy_density', '_compute_dissipated_energy', '_compute_state_new'):
+            info = {}
+
+            def f(H, state, L, X, dt, K, Ge, G, tau, M=M, nb=nb, fname=fname, info=info):
+                p = M.props(K, Ge, G, tau)
+                logargs, invs, nx = [], [], []
+                real_inv = jnp.linalg.inv
+
+                def inv_wrap(a):
+                    y = real_inv(a)
+                    invs.append((a, y))
+                    return y
+
+                def log_stub(scale):
+                    def stub(A):
+                        logargs.append(A)
+                        return scale * L[(len(logargs) - 1) % nb]
+                    return stub
+
+                def expm_stub(A):
+                    nx.append(A)
+                    return X[(len(nx) - 1) % nb]
+                with patched(TM, log_sqrt_symm=log_stub(1.0), log_symm=log_stub(2.0)), patched(jnp.linalg, inv=inv_wrap), \
+                        patched(M.mod, linalg=types.SimpleNamespace(expm=expm_stub)):
+                    out = getattr(M.mod, fname)(H, state, dt, p)
+                info['n'] = (len(logargs), len(invs))
+                z = jnp.zeros((nb, 3, 3))
+                okl, oki = len(logargs) == nb, len(invs) == nb
+                return dict(out=out, A=jnp.stack(logargs) if okl else z, Yin=jnp.stack([a for a, _ in invs]) if oki else z,
+                            Y=jnp.stack([y for _, y in invs]) if oki else z)
+            ex = dict(H=onp.array([[.1, .02, 0.], [.03, -.05, .01], [0., .02, .04]]),
+                      state=0.1 * onp.linspace(-.2, .3, 9 * nb) + onp.tile(onp.eye(3).ravel(), nb),
+                      L=0.01 * onp.arange(9 * nb).reshape(nb, 3, 3), X=onp.tile(onp.eye(3), (nb, 1, 1)) + 0.01 * onp.arange(9 * nb).reshape(nb, 3, 3),
+                      dt=0.1, **M.ex_moduli())
+            smp = lambda rng, nb=nb, M=M: [rng.normal(size=(3, 3)) * 0.2, 0.2 * rng.normal(size=9 * nb) + onp.tile(onp.eye(3).ravel(), nb),
+                                           rng.normal(size=(nb, 3, 3)) * 0.2, rng.normal(size=(nb, 3, 3)), 10.0 ** rng.uniform(-2, 2)] + M.smp_moduli(rng)
+            c = Case(h, f, ex, sampler=smp, label='kinematics[%s,%s]' % (M.kind, fname), validate=2)
+            nl, ni = info['n']
+            tag = '%s[%s]' % (fname, M.kind)
+            h.fact('%s.one_log_and_one_inverse_per_branch' % tag, nl == nb and ni == nb,
+                   'matrix-log calls %d, jnp.linalg.inv calls %d (expected %d each)' % (nl, ni, nb))
+            if nl != nb:
+                continue
+            have_inv = ni == nb
+
+            def spec(i, o, nb=nb, have_inv=have_inv):
+                H = i['H']
+                F = [[v_add(H[a][b], 1.0 if a == b else 0.0) for b in range(3)] for a in range(3)]
+                asm, ats = positive(i, nb), []
+                eye = [1.0 if a == b else 0.0 for a in range(3) for b in range(3)]
+                for n in range(nb):
+                    Fv = [[i['state'][9 * n + 3 * a + b] for b in range(3)] for a in range(3)]
+                    asm.append(v_not(v_eq(det33(Fv), 0.0)))
+                    A = [[o['A'][n][a][b] for b in range(3)] for a in range(3)]
+                    if have_inv:
+                        Y = [[o['Y'][n][a][b] for b in range(3)] for a in range(3)]
+                        Fe = matmul33(F, Y)
+                        FeT = [[Fe[b][a] for b in range(3)] for a in range(3)]
+                        ats += [Eq(flat(o['Yin'][n]), flat(Fv), name='branch%d_inverted_matrix_is_Fv_block' % n),
+                                Eq(flat(matmul33(Fv, Y)), eye, name='branch%d_Y_is_inverse_of_Fv' % n),
+                                Eq(flat(A), flat(matmul33(FeT, Fe)), name='branch%d_log_argument_is_FeT_Fe' % n)]
+                    else:  # no jnp.linalg.inv seen: characterise the argument by Fv^T A Fv = F^T F
+                        FvT = [[Fv[b][a] for b in range(3)] for a in range(3)]
+                        FT = [[F[b][a] for b in range(3)] for a in range(3)]
+                        ats.append(Eq(flat(matmul33(FvT, matmul33(A, Fv))), flat(matmul33(FT, F)), name='branch%d_FvT_logarg_Fv_is_FT_F' % n))
+                return asm, ats
+            c.prove(tag, spec, denoms=True, order=('core', 'nlsat'))
